@@ -1259,9 +1259,50 @@ MONITORS.update({'C02': [c02], 'C03': [c03], 'C05': [c05], 'C08': [c08, c08_idle
 NEG = float('-inf')
 
 
+def serial_topups(scen):
+    """Budget top-ups of the source of a serial scenario: [(time, amount)] in ticks, or None when the scenario changes
+    the budget in a way the reference does not describe (a reduction, or an operation before the first run).  Two
+    forms are understood: `script k adjust 0 n` scheduled from outside with `ext sched t a k p` / `ext schedrel ..`
+    (executed at that instant if it is not in the past), and `ext adjust 0 n` between two runs (executed at the
+    clock value reached by the runs so far)."""
+    scripts = {}
+    for l in scen:
+        if l[0] == 'script':
+            scripts.setdefault(l[1], []).append(l[2:])
+    ups = []
+    now = 0
+    started = False
+
+    def add(t, op):
+        if op[0] != 'adjust':
+            return True
+        if op[1] != '0' or int(op[2]) < 0:
+            return False
+        ups.append((t, int(op[2])))
+        return True
+    for l in scen:
+        if l[0] == 'run':
+            now += int(l[1])
+            started = True
+        elif l[0] == 'ext' and l[1] in ('sched', 'schedrel'):
+            t = int(l[2]) + (now if l[1] == 'schedrel' else 0)
+            if t < now:
+                continue        # a request in the past is rejected
+            for op in scripts.get(l[4], []):
+                if not add(t, op):
+                    return None
+        elif l[0] == 'ext' and l[1] == 'adjust':
+            if not started or not add(now, l[1:]):
+                return None
+    return sorted(ups)
+
+
 def serial_ref(scen, nparts):
     """Reference recurrence for a serial line: E[j][k] = time part k (1-based) enters station j.
-    Stations: 0 = source, 1..n-1 = handler/processor (cycle c) or buffer (delay, capacity K), n = sink."""
+    Stations: 0 = source, 1..n-1 = handler/processor (cycle c) or buffer (delay, capacity K), n = sink.
+    A source whose budget is topped up: part k is PERMITTED from the instant tau_k at which the budget reaches k; the
+    source starts its next cycle when the previous part leaves it (whatever the budget), so part k leaves at
+    max(D(0,k-1) + c_0, tau_k, space downstream)."""
     st = []
     for l in scen:
         if l[:2] == ['asset', 'dev']:
@@ -1281,8 +1322,14 @@ def serial_ref(scen, nparts):
             c[j] = int(kv.get('cyc', '0'))
     budget = st[0][1].get('budget', 'def')
     budget = None if budget in ('def', 'inf') else int(budget)
+    tau = {}
     if budget is not None:
-        nparts = min(nparts, budget)
+        total = budget
+        for t, a in serial_topups(scen) or []:
+            for k in range(total + 1, total + a + 1):
+                tau[k] = t
+            total += a
+        nparts = min(nparts, total)
     D = [[NEG] * (nparts + 2) for _ in range(n + 1)]   # D[j][k]: part k leaves station j (k>=1)
     E = [[NEG] * (nparts + 2) for _ in range(n + 2)]
 
@@ -1296,7 +1343,7 @@ def serial_ref(scen, nparts):
 
     for k in range(1, nparts + 1):
         g = c[0] if k == 1 else D[0][k - 1] + c[0]
-        D[0][k] = max(g, free(1, k))
+        D[0][k] = max(g, tau.get(k, NEG), free(1, k))
         for j in range(1, n + 1):
             E[j][k] = D[j - 1][k]
             if j == n:
@@ -1310,11 +1357,16 @@ def serial_ref(scen, nparts):
 
 def c04(stream, scen):
     """serial line: the time the k-th part enters each station equals the blocking-after-service
-    recurrence (exactly)."""
+    recurrence (exactly), and when a run call returns at clock value T (every run of a horizon split over several
+    calls, calls of length 0 included) exactly the entries due no later than T have happened."""
     wit = []
+    kinds = [l[2] for l in scen if l[:2] == ['asset', 'dev']]
+    if len(kinds) < 2 or kinds[0] != 'source' or kinds[-1] != 'sink' or serial_topups(scen) is None:
+        return wit          # not a serial line source -> stations -> sink (e.g. a shrinking candidate without its sink)
     fs = frames(stream)
     seen = {}
     horizon = 0
+    marks = []          # (clock value at which a run call returned, entries per station so far)
     for f in fs:
         if f.trigger[0] == 'abort':
             return wit
@@ -1324,13 +1376,26 @@ def c04(stream, scen):
             t = rec.split()
             if t[0] == 'received_part':
                 seen.setdefault(int(t[1]), []).append(int(t[2]))
+        if f.trigger[0] == 'ran':
+            marks.append((f.trigger[1], {j: len(v) for j, v in seen.items()}))
     nparts = max([len(v) for v in seen.values()] + [0]) + 3
     E, n = serial_ref(scen, nparts)
+    # what had to be done when the m-th run call returned: the reference of the scenario UP TO that call (a top-up
+    # made from outside afterwards, at the same clock value, belongs to the next call)
+    runs = [i for i, l in enumerate(scen) if l[0] == 'run']
+    partial = [serial_ref(scen[:i + 1], nparts)[0] for i in runs[:len(marks)]]
     for j in range(1, n + 1):
         got = seen.get(j, [])
         exp = [int(x) for x in E[j][1:] if x != NEG and x <= horizon]
-        if got != exp[:len(got)] or (len(exp) > len(got) and any(x < horizon for x in exp[len(got):])):
+        if got != exp:
             wit.append(f'station {j}: parts entered at {got[:8]}..., the reference recurrence gives {exp[:8]}... (horizon {horizon})')
+            continue
+        for (T, cnt), Em in zip(marks, partial):
+            due = sum(1 for x in Em[j][1:] if x != NEG and x <= T)
+            if cnt.get(j, 0) != due:
+                wit.append(f'station {j}: when the run call returned at t={int(T)}, {cnt.get(j, 0)} parts had entered; the reference '
+                           f'recurrence has {due} entries up to that instant ({exp[:8]}...)')
+                break
     return wit
 
 
